@@ -28,6 +28,7 @@ func init() {
 			{ID: "C02.R7", Text: "'no checkpoint' is concluded only from evidence: the file backend treats exactly os.ErrNotExist as absent and returns every other read error; the Couchbase backend sets exist only after the xattr was read and parsed", Run: c02r7},
 			{ID: "C02.R8", Text: "the re-request after a rollback keeps the requested end and the other identities (same rules as C08.R1, C08.R2)", Run: func(c *Ctx, id string) { c08r1(c, id); c08r2(c, id) }},
 			{ID: "C02.R9", Text: "the request is made with the loaded position as it is: openStream passes offsets[vbID] and observers[vbID] of the same key to Client.OpenStream (same rule as C12.R3, open arguments)", Run: c12r3},
+			{ID: "C02.R10", Text: "every tracked position is dumped and every loaded document becomes a position: every loop over a concurrent map runs to completion: the Range callback returns true on every path (frozen exception: markAbsentInstances stops at the error it returns)", Run: rangeComplete("stream.checkpoint)", "stream.stream).Open", "metadata.")},
 			{ID: "C02.R6", Text: "read-only wrapper: Save/Clear perform no call and return nil, Load forwards its parameters; Start wraps the metadata whenever Metadata.ReadOnly and under no other condition", Run: c02r6},
 		},
 	})
